@@ -251,3 +251,287 @@ def native_rel(prog, inputs):
 
 def make_rel(prog_json):
     return RelCompiledInterpreted(prog_json)
+
+
+# ----------------------------------------------------------------------------------------------------
+# the read / write / re-read pipeline (C01, C02, C04 size agreement, C06, C07, C08, C09, C16 per program)
+
+PROBE_FUNCS = {"_is_eof"}
+
+
+def has_eof_array(prog):
+    from t2.family import EOF_KINDS
+
+    return any(k in EOF_KINDS for k in prog.kinds)
+
+
+class Pipeline(T2Case):
+    """For one program and one reader (compiled or interpreted), on symbolic input D at position p:
+
+      v  = read(D, p)                      C08: no short read is accepted; C09: reads stay inside [p, end)
+      B  = write(v)                        C02: len(B) == consumed, B == D on data bits, 0 elsewhere
+      v' = read(B ++ R, 0)                 C01: v' == v and consumed' == len(B)
+      w  = read(window(D, p), 0)           C09: w == v, sizes equal, end == p + end_w
+      L' >= L (longer input, same prefix)  C08: the path stays valid and the value is unchanged
+    """
+
+    kind = "pipe"
+    functions = [
+        "dissect/cstruct/types/structure.py:StructureMetaType._read",
+        "dissect/cstruct/types/structure.py:StructureMetaType._write",
+        "dissect/cstruct/types/structure.py:UnionMetaType._read",
+        "dissect/cstruct/types/structure.py:UnionMetaType._read_fields",
+        "dissect/cstruct/types/structure.py:UnionMetaType._write",
+        "dissect/cstruct/types/base.py:BaseArray._read",
+        "dissect/cstruct/types/base.py:BaseArray._write",
+        "dissect/cstruct/bitbuffer.py:BitBuffer.read",
+        "dissect/cstruct/bitbuffer.py:BitBuffer.write",
+        "dissect/cstruct/bitbuffer.py:BitBuffer.flush",
+    ]
+
+    def __init__(self, prog_json, compiled, props):
+        self.compiled = bool(compiled)
+        self.props = set(props)
+        self.kind = "pipe" + ("C" if compiled else "I") + "[" + "+".join(sorted(props)) + "]"
+        super().__init__(prog_json)
+
+    def want(self, p):
+        return p in self.props
+
+    def interp(self, ctx):
+        sm = dict(summaries())
+        if "C02" in self.props:
+            from contracts import loops
+
+            sm.update(loops.canonical_leb_summaries())
+        return Interp(ctx, summaries=sm, unroll=UNROLL)
+
+    def body(self, ctx):
+        T = self.cls(self.compiled)
+        D, p = self.new_input(ctx)
+        it = self.interp(ctx)
+        s = SymStream(ctx, D, p, name="in")
+        o = outcome(it, T._read, [s])
+        if o[0] == "raise":
+            ctx.cover("refused")
+            # C08: premature end must be signalled as EOFError (struct.error for a trailing partial element of
+            # an [EOF] array is outside the statement)
+            if self.want("C08") and any(e[0] == "read" and _short(e) for e in s.log if e[4] not in PROBE_FUNCS):
+                ok = o[1] is EOFError or (has_eof_array(self.prog) and o[1].__name__ == "error")
+                ctx.prove("C08/short-read-raises-EOFError", ok, info=f"raised {o[1].__name__}")
+            return
+        v = o[1]
+        end = s.pos
+        ctx.cover("parsed")
+        consumed = _norm(zint(end) - zint(p))
+        reads = [e for e in s.log if e[0] == "read"]
+        if self.want("C08"):
+            bad = [e for e in reads if e[4] not in PROBE_FUNCS and _short(e)]
+            goal = True
+            for e in bad:
+                goal = it._and(goal, ctx.eq(e[2], e[3]))
+            ctx.prove("C08/no-short-read-accepted", goal, info=f"{len(reads)} reads; candidates for short: {[(str(e[1]), str(e[2]), str(e[3]), e[4]) for e in bad][:2]}")
+            if not has_eof_array(self.prog):
+                self.monotone(ctx, it, D, v, end)
+        if self.want("C09"):
+            for i, e in enumerate(reads):
+                if e[4] in PROBE_FUNCS:
+                    continue
+                inside = z3.And(zint(e[1]) >= zint(p), zint(e[1]) + zint(e[3]) <= zint(end))
+                ctx.prove(f"C09/read{i}-inside-extent", _norm(inside), info=f"read at {e[1]} len {e[3]} by {e[4]}")
+            self.window(ctx, it, D, p, v, end, T)
+        if self.want("C04") and T.size is not None:
+            ctx.prove("C04/consumed==len(T)", ctx.eq(consumed, len(T)), info=f"len(T)={len(T)}")
+        if not (self.want("C01") or self.want("C02") or self.want("C04")):
+            return
+        # ---- write
+        out = SymStream(ctx, SBytes([]), 0, name="out")
+        ow = outcome(it, T._write, [out, v])
+        if ow[0] == "raise":
+            ctx.prove("C01/dump-of-parsed-value-succeeds", False, info=f"_write raised {ow[1].__name__}")
+            return
+        B = out.data
+        blen = B.length()
+        if self.want("C04") and T.size is not None:
+            ctx.prove("C04/dumped==len(T)", ctx.eq(blen, len(T)), info=f"len(T)={len(T)}")
+        if self.want("C02"):
+            ctx.prove("C02/length==consumed", ctx.eq(blen, consumed), info=f"dumped {blen} consumed {consumed}")
+            self.fidelity(ctx, it, D, p, B, T)
+        if self.want("C01"):
+            # dumps(v) is followed by arbitrary further bytes R, except for [EOF] arrays whose extent is the
+            # end of the input by definition
+            R = SBytes([]) if has_eof_array(self.prog) else SBytes.fresh("R")
+            s2 = SymStream(ctx, B.concat(R), 0, name="re")
+            o2 = outcome(it, T._read, [s2])
+            if o2[0] == "raise":
+                ctx.prove("C01/reparse-succeeds", False, info=f"re-parse raised {o2[1].__name__}")
+                return
+            ctx.prove("C01/roundtrip-values", deep_eq(it, o2[1], v), info="parse(dump(v)) == v")
+            ctx.prove("C01/roundtrip-consumed", ctx.eq(s2.pos, blen), info=f"consumed {s2.pos} of {blen}")
+
+    # -- C08: a longer input with the same prefix takes the same path and gives the same value
+    def monotone(self, ctx, it, D, v, end):
+        seg = D.items[0]
+        L = z3.Length(seg.seq)
+        L2 = z3.Int("L_longer")
+        sub = [z3.substitute(c, (L, L2)) for c in ctx.pc if _mentions(c, L)]
+        if not sub:
+            ctx.prove("C08/longer-input-same-path", True, info="path condition independent of input length")
+            return
+        ctx.prove("C08/longer-input-same-path", z3.Implies(L2 >= L, z3.And(*sub)), info=f"{len(sub)} length-dependent path conjuncts")
+        # value terms must not depend on the length
+        terms = _collect_terms(v)
+        dep = [t for t in terms if _mentions(t, L)]
+        if dep:
+            ctx.prove("C08/value-independent-of-length", z3.Implies(L2 >= L, z3.And(*[t == z3.substitute(t, (L, L2)) for t in dep])),
+                      info=f"{len(dep)} value terms mention the input length")
+        else:
+            ctx.prove("C08/value-independent-of-length", True, info="no value term mentions the input length")
+
+    # -- C09: parsing the window D[p:] from 0 gives the same value
+    def window(self, ctx, it, D, p, v, end, T):
+        seg = D.items[0]
+        n = _norm(z3.Length(seg.seq) - zint(p))
+        if ctx.branch(ctx.lt(n, 0)):
+            return
+        w = SBytes([seg.window(p, n)])
+        s3 = SymStream(ctx, w, 0, name="win")
+        o3 = outcome(it, T._read, [s3])
+        if o3[0] == "raise":
+            ctx.prove("C09/window-parse-succeeds", False, info=f"parse of D[p:] raised {o3[1].__name__}")
+            return
+        ctx.prove("C09/window-values", deep_eq(it, o3[1], v), info="T(D[p:]) == T(stream at p)")
+        ctx.prove("C09/window-sizes", deep_eq(it, sizes_of(o3[1]), sizes_of(v)), info="_sizes equal")
+        ctx.prove("C09/window-end", ctx.eq(_norm(zint(p) + zint(s3.pos)), end), info="stream left at p + encoded size")
+
+    # -- C02
+    def fidelity(self, ctx, it, D, p, B, T):
+        from specs import layout
+
+        if T.size is not None and isinstance(B.length(), int):
+            desc = layout.describe(T)
+            if desc.get("layout", True) is None or desc["size"] != B.length():
+                ctx.prove("C02/mask-available", desc["size"] == B.length(), info=f"reference size {desc['size']} vs dumped {B.length()}")
+                return
+            m = layout.mask(desc, self.prog.endian)
+            seg = D.items[0]
+            bad = []
+            for k, mk in enumerate(m):
+                ob = B.byte_at(k)
+                ib = seg.at(_norm(zint(p) + k))
+                ctx.assume_byte(ib)
+                if mk == 0xFF:
+                    g = deep_eq(it, ob, ib)
+                elif mk == 0:
+                    g = deep_eq(it, ob, 0)
+                else:
+                    from pyvc import sym as _s
+
+                    g = _norm(zint(ob) == _s.and_const(ib, mk))
+                ctx.prove(f"C02/byte{k}-mask{mk:02x}", g, info=f"out[{k}] vs in[p+{k}] on mask {mk:#04x}")
+        else:
+            # variable-size definition: the extent is data-dependent; fidelity is stated piecewise on the
+            # output rope: every piece is either the bytes a read delivered or zero padding.
+            seg = D.items[0]
+            inp = SBytes([seg.window(p, B.length())])
+            ctx.prove("C02/dynamic-bytes", _dyn_fidelity(ctx, it, T, B, inp), info="dump == consumed input except padding (variable-size definition)")
+
+
+def _dyn_fidelity(ctx, it, T, B, inp):
+    """Walk the output rope: every byte item must equal the input byte at the same offset (or be 0 where an
+    aligned definition pads), every opaque segment must be the very window of the input at that offset."""
+    seg = inp.items[0]
+    off = 0
+    goal = True
+    for item in B.items:
+        if isinstance(item, Seg):
+            same = item.fn is seg.fn and item.fn is not None
+            if not same:
+                return False
+            goal = it._and(goal, ctx.eq(_norm(zint(item.off)), _norm(zint(seg.off) + zint(off))))
+            off = _norm(zint(off) + zint(item.n))
+        else:
+            ib = seg.at(off)
+            ctx.assume_byte(ib)
+            mk = ctx.ghost.get("bb", {}).get("masked", {}).get(item.get_id()) if is_z3(item) else None
+            if mk is not None and z3.eq(z3.simplify(mk[0]), z3.simplify(ib)):
+                # the input byte with the unassigned bits of a bit-field unit cleared
+                off = _norm(zint(off) + 1)
+                continue
+            e = deep_eq(it, item, ib)
+            if T.__align__ and e is not True:
+                z = deep_eq(it, item, 0)
+                e = True if z is True else z3.Or(zbool_(e), zbool_(z))
+            goal = it._and(goal, e)
+            off = _norm(zint(off) + 1)
+    return goal
+
+
+def zbool_(e):
+    return z3.BoolVal(e) if isinstance(e, bool) else e
+
+
+def _short(e):
+    """log entry (kind, pos, requested, got, caller): short iff requested is a count and got differs"""
+    req, got = e[2], e[3]
+    if req is None or (isinstance(req, int) and req < 0):
+        return False
+    if isinstance(req, int) and isinstance(got, int):
+        return got != req
+    return not z3.eq(z3.simplify(zint(req)), z3.simplify(zint(got)))
+
+
+def _mentions(term, sub):
+    seen = set()
+    stack = [term]
+    sid = sub.get_id()
+    while stack:
+        t = stack.pop()
+        i = t.get_id()
+        if i in seen:
+            continue
+        seen.add(i)
+        if i == sid:
+            return True
+        stack.extend(t.children())
+    return False
+
+
+def _collect_terms(v, depth=0):
+    from dissect.cstruct.types.structure import StructureMetaType
+
+    out = []
+    if depth > 8:
+        return out
+    if is_z3(v):
+        out.append(v)
+    elif isinstance(v, (SEnum, SPtr)):
+        out += _collect_terms(v.value, depth + 1)
+    elif isinstance(v, SBytes):
+        for i in v.items:
+            if isinstance(i, Seg):
+                out.append(i.seq)
+                if is_z3(i.n):
+                    out.append(i.n)
+            elif is_z3(i):
+                out.append(i)
+    elif isinstance(v, SStr):
+        out += _collect_terms(v.raw, depth + 1)
+    elif isinstance(v, SFloat):
+        out += _collect_terms(v.bits, depth + 1)
+    elif isinstance(v, SArr):
+        out += _collect_terms(v.raw, depth + 1) + _collect_terms(v.count, depth + 1)
+    elif isinstance(v, (list, tuple)):
+        for x in v:
+            out += _collect_terms(x, depth + 1)
+    elif isinstance(v, dict):
+        for x in v.values():
+            out += _collect_terms(x, depth + 1)
+    elif isinstance(type(v), StructureMetaType):
+        for name in type(v).fields:
+            out += _collect_terms(getattr(v, name, None), depth + 1)
+    return out
+
+
+def make_pipe(prog_json, compiled, props):
+    return Pipeline(prog_json, compiled, props)
